@@ -254,3 +254,54 @@ func VH_C02_window_wiring() {
 	vassert("C02.K2.window_is_rounded_outward_too", vimplies(inside, got == 1))
 	vassert("C02.K2.window_never_invents", vimplies(got == 1, inside))
 }
+
+// VH_REFINE_C02_window: the concretisation stage of VH_C02_window_wiring. That harness reasons with K1's contract in
+// place of the two rounding functions, so its counterexamples assign values to uninterpreted functions and cannot
+// be replayed. When it reports one, the driver runs this twin - the same scenario with the REAL rounding functions -
+// and asks the solver for a concrete float64 input (a satisfiable query, fast); only that input, replayed natively,
+// is reported. It is not part of the ordinary pass (on a correct tree the query is the hard direction, which
+// K1 + window_wiring decide compositionally).
+//verif:cfg solver=z3 stopfirst=1 timeout=60000 verdict=120000 maxwall=400 maxpaths=200000 b_objects=1_point b_coordinates=x:any_float64_in_[0,180]_(K1_domain),y:fixed b_query=rectangle b_role=concretisation_of_contract_level_counterexamples
+func VH_REFINE_C02_window() {
+	c := New()
+	co := func() float64 {
+		d := vnondetFloat64()
+		vassume(d >= 0 && d <= 180 && vhInF32Range(d))
+		return d
+	}
+	px, py := co(), 5.0
+	pt := object.New("p", geojson.NewSimplePoint(geometry.Point{X: px, Y: py}), 0, field.List{})
+	c.Set(pt)
+	a, b, cc, d := co(), 0.0, co(), 10.0
+	vassume(a <= cc)
+	q := geojson.NewRect(geometry.Rect{Min: geometry.Point{X: a, Y: b}, Max: geometry.Point{X: cc, Y: d}})
+	got := 0
+	c.Intersects(q, 0, nil, nil, func(o *object.Object) bool {
+		if o == pt {
+			got++
+		}
+		return true
+	})
+	inside := px >= a && px <= cc
+	vassert("C02.K2.window_is_rounded_outward_too", vimplies(inside, got == 1))
+	vassert("C02.K2.window_never_invents", vimplies(got == 1, inside))
+	vobs("window", px, a, cc, got)
+}
+
+// VH_REFINE_C02_rect: concretisation twin of VH_C02_rect_wiring (real rounding functions, satisfiable direction only).
+//verif:cfg solver=z3 stopfirst=1 timeout=60000 verdict=120000 maxwall=300 b_rect=any_float64_rect_in_[0,180] b_role=concretisation_of_contract_level_counterexamples
+func VH_REFINE_C02_rect() {
+	co := func() float64 {
+		d := vnondetFloat64()
+		vassume(d >= 0 && d <= 180 && vhInF32Range(d))
+		return d
+	}
+	a, b, c, d := co(), co(), co(), co()
+	vassume(a <= c && b <= d)
+	min, max := rtreeRect(geometry.Rect{Min: geometry.Point{X: a, Y: b}, Max: geometry.Point{X: c, Y: d}})
+	vassert("C02.K1.rect_min_x_outward", float64(min[0]) <= a)
+	vassert("C02.K1.rect_min_y_outward", float64(min[1]) <= b)
+	vassert("C02.K1.rect_max_x_outward", float64(max[0]) >= c)
+	vassert("C02.K1.rect_max_y_outward", float64(max[1]) >= d)
+	vobs("rect", a, b, c, d)
+}
